@@ -121,7 +121,8 @@ Theorem stale_invariant :
 Proof. intros k progs s c sl v R Hin. exact (proj1 (reachable_stale k progs s R) c sl v Hin). Qed.
 Print Assumptions stale_invariant.
 
-From Thunder Require Import Reactive.ProofsOut Reactive.ProofsClosed Reactive.ProofsShape Reactive.ProofsJoin Reactive.ProofsProgress.
+From Thunder Require Import Reactive.ProofsOut Reactive.ProofsClosed Reactive.ProofsShape Reactive.ProofsJoin Reactive.ProofsProgress
+  Reactive.ProofsSeg Reactive.ProofsRun Reactive.ProofsOwnership.
 
 (** The same, about what was actually published: [r_out] is the value the compute function had returned when
     the publish step ran (the harness compares it with the real return value at every publish event). *)
@@ -144,21 +145,31 @@ Print Assumptions published_output_is_current.
     the programs only name slots that exist.  Proof: closedness (ProofsClosed), the shape of stacks
     (ProofsShape: above a frame of Rerunner.run's critical section sit only frames of the compute function),
     joins (ProofsJoin: a join counts the branch goroutines still running; a branch goroutine only waits for
-    younger joins; the error return is always possible below a compute frame) and the Mutex invariant.  The
-    labels that wait are r.mu.Lock (its holder can step or waits for a join) and a join (one of its branches
-    can step or waits for a younger join).
+    younger joins; the error return is always possible below a compute frame), the Mutex invariant, and
+    [cache_lookup_never_returns_the_running_computation] below (formerly a hypothesis).  The labels that wait
+    are r.mu.Lock (its holder can step or waits for a join) and a join (one of its branches can step or waits
+    for a younger join).
 
-    Two things the statement does NOT say.  (1) For a task about to call reactive.Cache the enabled label
-    may be "the compute function does not call Cache this time": that a call whose key is held by another
-    goroutine eventually gets the lock is not proved (it needs the keys to be nested in a fixed order, a
-    usage rule).  (2) [no_self_hit s]: a cache lookup does not return the very computation that performs it;
-    true of the Go program (a computation is stored after its function returned), not proved of the model,
-    checked on every state of every replayed trace (component code 7). *)
+    One thing the statement does NOT say: for a task about to call reactive.Cache the enabled label may be "the
+    compute function does not call Cache this time": that a call whose key is held by another goroutine
+    eventually gets the lock is not proved (it needs the keys to be nested in a fixed order, a usage rule). *)
 Theorem progress :
-  forall k progs s, progs_ok k progs -> reachable (init k progs) s -> no_self_hit s -> ~ quiescent s ->
+  forall k progs s, progs_ok k progs -> reachable (init k progs) s -> ~ quiescent s ->
   exists tid arg s', step s (LTask tid arg) = Some s'.
-Proof. intros k progs s Pk R Ns Nq. apply (progress_lemma k progs s Pk R Ns). exact Nq. Qed.
+Proof. exact progress_full_lemma. Qed.
 Print Assumptions progress.
+
+(** A cache lookup never returns the computation that performs it: a computation is stored in the cache by the
+    frame that sits beneath all its own frames (Reactive/ProofsSeg.v: the frames of one computation are
+    contiguous and end at its home; a goroutine started inside a compute function ends at a join standing above
+    the computation's script; when the home is at the top of its stack nobody works for the computation any
+    more), so whatever is in a cache, or about to be linked below a parent, is not being worked for
+    (Reactive/ProofsRun.v).  This was the state hypothesis of [progress]; it is still evaluated on every state of
+    every replayed trace (component 7). *)
+Theorem cache_lookup_never_returns_the_running_computation :
+  forall k progs s, progs_ok k progs -> reachable (init k progs) s -> no_self_hit s.
+Proof. exact reachable_no_self_hit. Qed.
+Print Assumptions cache_lookup_never_returns_the_running_computation.
 
 (** whenever r.mu is held some task stands inside the critical section of Rerunner.run *)
 Theorem mutex_holder_exists :
@@ -236,22 +247,22 @@ Print Assumptions every_schedule_is_bounded.
 
 (** PROGRESS, SHARPENED.  A reachable state in which no task label other than an expiry is enabled is
     *settled*: every goroutine left is a run asleep on its re-run interval.  (With [progress]: a state in which
-    no task label at all is enabled is quiescent.)  Hypotheses as for [progress]. *)
+    no task label at all is enabled is quiescent.) *)
 Theorem no_awake_label_means_settled :
-  forall k progs s, progs_ok k progs -> reachable (init k progs) s -> no_self_hit s ->
+  forall k progs s, progs_ok k progs -> reachable (init k progs) s ->
   (forall tid arg s', step s (LTask tid arg) = Some s' -> is_expiry s (LTask tid arg) = true) ->
   settled s = true.
-Proof. exact no_awake_label_means_settled_lemma. Qed.
+Proof. exact no_awake_label_means_settled_full. Qed.
 Print Assumptions no_awake_label_means_settled.
 
 (** EVENTUALLY SETTLED: every maximal execution between expiries is finite, with an explicit bound, and ends
     settled — for every scheduler. *)
 Theorem every_execution_settles :
   forall k progs s ls s' n, progs_ok k progs -> reachable (init k progs) s ->
-  irun s ls = Some (s', n) -> no_self_hit s' ->
+  irun s ls = Some (s', n) ->
   (forall tid arg s'', step s' (LTask tid arg) = Some s'' -> is_expiry s' (LTask tid arg) = true) ->
   length ls <= mu s + n * rerun_cost s /\ settled s' = true.
-Proof. exact every_execution_settles_lemma. Qed.
+Proof. exact every_execution_settles_full. Qed.
 Print Assumptions every_execution_settles.
 
 (** NO LOST INVALIDATION WITHOUT WAITING FOR QUIESCENCE.  A state is *dormant* when every frame left belongs to
